@@ -732,7 +732,18 @@ fn run_real(progs: &[Vec<Op>], wal: Option<SyncMode>, variant: u8, respect_lock:
 
 type SpecState = BTreeMap<Key, Val>;
 
-fn spec_ok(st: &SpecState, op: &Op, res: &Res, relax: bool) -> bool {
+/// how a scan may deviate from `starts_with` and still be accepted (only to ATTRIBUTE a failure of
+/// the exact check to one cause, never to accept a history)
+#[derive(Clone, Copy)]
+struct Relax<'a> {
+    /// a prefix without end key returns the rest of its metadata shard
+    rest_of_shard: bool,
+    /// these keys may be listed or missing at will
+    ignore: &'a [Key],
+}
+const EXACT: Relax<'static> = Relax { rest_of_shard: false, ignore: &[] };
+
+fn spec_ok(st: &SpecState, op: &Op, res: &Res, relax: Relax) -> bool {
     match op {
         Op::Put(..) | Op::PutD(..) => *res == Res::Ok,
         Op::Get(k) => match (st.get(k), res) {
@@ -755,9 +766,10 @@ fn spec_ok(st: &SpecState, op: &Op, res: &Res, relax: bool) -> bool {
                 let exact = |k: &Key| k.real().starts_with(&pfx);
                 // `relax`: what `MetadataSlab::scan` does on a prefix without an end key - besides
                 // the keys that start with it, every metadata key of its shard above it
-                let rest = |k: &Key| relax && !pfx.is_empty() && !has_end_key(&pfx) && k.cls() != Cls::C && k.shard() == p.shard() && k.real() >= pfx;
-                let want: Vec<Key> = st.keys().copied().filter(|k| exact(k) || rest(k)).collect();
-                *ks == want
+                let rest = |k: &Key| relax.rest_of_shard && !pfx.is_empty() && !has_end_key(&pfx) && k.cls() != Cls::C && k.shard() == p.shard() && k.real() >= pfx;
+                let want: Vec<Key> = st.keys().copied().filter(|k| (exact(k) || rest(k)) && !relax.ignore.contains(k)).collect();
+                let got: Vec<Key> = ks.iter().copied().filter(|k| !relax.ignore.contains(k)).collect();
+                got == want
             }
             _ => false,
         },
@@ -775,7 +787,7 @@ fn spec_apply(st: &mut SpecState, op: &Op) {
     }
 }
 
-fn wg(recs: &[HRec], done: u64, st: &mut SpecState, seen: &mut HashSet<(u64, Vec<(Key, Val)>)>, nodes: &mut u64, relax: bool) -> bool {
+fn wg(recs: &[HRec], done: u64, st: &mut SpecState, seen: &mut HashSet<(u64, Vec<(Key, Val)>)>, nodes: &mut u64, relax: Relax) -> bool {
     if done.count_ones() as usize == recs.len() {
         return true;
     }
@@ -814,13 +826,13 @@ fn wg(recs: &[HRec], done: u64, st: &mut SpecState, seen: &mut HashSet<(u64, Vec
     false
 }
 
-fn linearizable_with(recs: &[HRec], relax: bool) -> (bool, bool) {
+fn linearizable_with(recs: &[HRec], relax: Relax) -> (bool, bool) {
     let mut nodes = 0;
     let ok = wg(recs, 0, &mut BTreeMap::new(), &mut HashSet::new(), &mut nodes, relax);
     (ok, nodes > 2_000_000)
 }
 fn linearizable(recs: &[HRec]) -> (bool, bool) {
-    linearizable_with(recs, false)
+    linearizable_with(recs, EXACT)
 }
 
 /// the scans of the history whose prefix has no end key (`next_prefix` = `None`)
@@ -1291,7 +1303,7 @@ impl Ctx<'_> {
         // scan_unbounded_prefix_returns_rest_of_shard).  When the history is linearizable once
         // such scans are allowed EXACTLY that result, the finding is the scan's over-return.
         let no_end_key = scans_without_end_key(&hist);
-        if !ok && !no_end_key.is_empty() && linearizable_with(&hist, true).0 {
+        if !ok && !no_end_key.is_empty() && linearizable_with(&hist, Relax { rest_of_shard: true, ignore: &[] }).0 {
             let class = "tensor_store.metadata_slab.scan/prefix_without_end_key_returns_rest_of_shard";
             let what = "scan(prefix) returned keys that do not start with the prefix: next_prefix(prefix) is None because the prefix with its last byte plus one is not UTF-8 (last byte 0x7F or 0xBF), and MetadataSlab::scan then reads the rest of the shard";
             let extra: Vec<String> = hist
@@ -1315,7 +1327,18 @@ impl Ctx<'_> {
         }
         if !ok {
             let (cls, mix) = classify_nonlin(&hist);
-            if cls == "scan" && mix.is_none() && stale_scan {
+            // the non-emb keys that were put durably with a vector: the repaired defect c787e542 left
+            // an entity-index entry for them that `delete` never removed.  The failure is attributed
+            // to it only if ignoring exactly these keys in every scan makes the history linearizable.
+            let stale_keys: Vec<Key> = progs
+                .iter()
+                .flatten()
+                .filter_map(|op| match op {
+                    Op::PutD(k, v) if k.cls() != Cls::E && k.cls() != Cls::C && v.vec != VecF::N => Some(*k),
+                    _ => None,
+                })
+                .collect();
+            if cls == "scan" && mix.is_none() && stale_scan && linearizable_with(&hist, Relax { rest_of_shard: false, ignore: &stale_keys }).0 {
                 // explained by the index entry `put_durable` leaves for a non-emb key (reported under (c) / below)
                 self.violation(
                     "tensor_store.slab_router.put_durable/non_emb_key_with_vector_stays_in_scan_after_delete",
